@@ -96,6 +96,7 @@ void tls13GetCurrSessParams(ssl_t *ssl,
     params->cipherId = ssl->cipher->ident;
     psGetTime(&params->timestamp, ssl->userPtr);
     params->maxEarlyData = ssl->tls13SessionMaxEarlyData;
+    params->clientAuth = (ssl->flags & SSL_FLAGS_CLIENT_AUTH) ? 1 : 0;
 }
 
 int32_t tls13StorePsk(ssl_t *ssl,
@@ -115,6 +116,7 @@ int32_t tls13StorePsk(ssl_t *ssl,
         /* By default don't support early data. It must be explicitly
            enabled */
         defaultParams.maxEarlyData = 0;
+        defaultParams.clientAuth = 0;
         params = &defaultParams;
     }
 
@@ -514,6 +516,7 @@ int32_t tls13ExportState(ssl_t *ssl,
                          sizeof(psTime_t));
 
     psDynBufAppendAsBigEndianUint32(&paramsBuf, psk->params->maxEarlyData);
+    psDynBufAppendByte(&paramsBuf, psk->params->clientAuth);
 
     paramsData = psDynBufDetach(&paramsBuf,
         &paramsDataLen);
@@ -552,6 +555,7 @@ int32_t tls13ParseMatrixSessionParams(ssl_t *ssl,
     uint32_t ticketAgeAdd = 0;
     psTime_t timestamp;
     uint32_t maxEarlyData = 0;
+    unsigned char clientAuth = 0;
     int32_t rc;
 
     /*
@@ -666,6 +670,12 @@ int32_t tls13ParseMatrixSessionParams(ssl_t *ssl,
         return rc;
     }
     params->maxEarlyData = maxEarlyData;
+
+    if (psParseOctet(pb, &clientAuth) != 1)
+    {
+        return PS_PARSE_FAIL;
+    }
+    params->clientAuth = clientAuth;
 
     return PS_SUCCESS;
 }
